@@ -24,6 +24,7 @@ mod c12;
 mod c13;
 mod gen_wizard;
 mod c15;
+mod c18;
 mod c19;
 
 use common::Ctx;
@@ -75,6 +76,7 @@ fn main() {
         "c12" => c12::run(&mut ctx),
         "c13" => c13::run(&mut ctx),
         "c15" => c15::run(&mut ctx),
+        "c18" => c18::run(&mut ctx),
         "c19" => c19::run(&mut ctx),
         _ => {
             eprintln!("unknown suite {}", suite);
